@@ -100,6 +100,11 @@ def cases(rng, tier):
             cnt = sum(sum(r) for r in mask)
             for v in ({"t": "scalar"}, {"t": "flat", "n": cnt}):
                 out.append({"lens": lens, "mask": mask, "idx": None, "val": v, "dtype": rng.choice(["int64", "float64", "uint8"]), "vseed": rng.randint(0, 999), "variant": 0})
+            # the mask OBJECT was used as an index before, with other content, and was changed in place since (&=, a write through its
+            # flat view / a row view, fill): the assignment goes by what the mask holds now
+            was = [[b or rng.random() < 0.4 for b in row] for row in mask]
+            out.append({"lens": lens, "mask": mask, "mask_was": was, "mhow": rng.choice(["iand", "flat", "row", "fill"]), "idx": None,
+                        "val": rng.choice([{"t": "scalar"}, {"t": "flat", "n": cnt}]), "dtype": rng.choice(["int64", "float64"]), "vseed": rng.randint(0, 999), "variant": 0})
     for _ in range(2000 if tier == "quick" else 30000):
         lens = gens.shape_random(rng, 10, 6)
         n, m = len(lens), max(lens) if lens else 0
@@ -141,7 +146,7 @@ def cases(rng, tier):
 
 
 def key(p):
-    return engine.stable_hash([p["lens"], p["idx"], p.get("mask"), p["val"]])
+    return engine.stable_hash([p["lens"], p["idx"], p.get("mask"), p["val"], p.get("mhow")])
 
 
 def nontrivial(p):
@@ -216,7 +221,26 @@ def run_impl(p):
         try:
             if p.get("mask") is not None:
                 mflat = np.array([b for r in p["mask"] for b in r], dtype=bool)
-                ra[RaggedArray(mflat, list(p["lens"]))] = val
+                m = RaggedArray(mflat.copy(), list(p["lens"]))
+                if "mask_was" in p:
+                    wflat = np.array([b for r in p["mask_was"] for b in r], dtype=bool)
+                    m = RaggedArray(wflat.copy(), list(p["lens"]))
+                    ra[m]                                   # first use of the mask object, with its earlier content
+                    how = p["mhow"]
+                    if how == "iand":
+                        m &= RaggedArray(mflat.copy(), list(p["lens"]))
+                    elif how == "flat":
+                        m.ravel()[...] = mflat
+                    elif how == "row":
+                        k = 0
+                        for i, l in enumerate(p["lens"]):
+                            if l:
+                                m[i][...] = mflat[k:k + l]
+                            k += l
+                    else:
+                        m.fill(False)
+                        m.ravel()[...] = mflat
+                ra[m] = val
             else:
                 ra[ragidx.py_index(p["idx"], p.get("variant", 0))] = val
         except Exception:
